@@ -1,9 +1,11 @@
 ---------------------------- MODULE NsFixupImpl ----------------------------
 (* Implementation-shaped model of Xalan-C's result-namespace fix-up: a transcription, decision    *)
 (* by decision, of                                                                                *)
-(*   XSLT/ResultNamespacesStack.cpp  addDeclaration / pushContext / popContext /                  *)
+(*   DOMSupport/XalanNamespacesStack.cpp (the class behind XSLTEngineImpl::m_resultNamespacesStack; *)
+(*                                   XSLT/ResultNamespacesStack.cpp is an unused twin)            *)
+(*                                   addDeclaration / pushContext / popContext / findEntry /      *)
 (*                                   getNamespaceForPrefix / getPrefixForNamespace /              *)
-(*                                   prefixIsPresentLocal  (+ XPath/XalanQName.cpp look-ups)      *)
+(*                                   prefixIsPresentLocal                                         *)
 (*   XSLT/XSLTEngineImpl.cpp         addResultAttribute (1246), startElement / endElement and the *)
 (*                                   pending start tag, isPendingResultPrefix (2702),             *)
 (*                                   getUniqueNamespaceValue (2975), addResultNamespace (2727),   *)
@@ -45,14 +47,17 @@ FindBack(b, i, key, k) == IF i = 0 THEN Null ELSE IF b[i][k] = key THEN b[i][3 -
 FirstIdx(vec, k, key) == IF \E i \in 1..Len(vec) : vec[i][k] = key
                          THEN CHOOSE i \in 1..Len(vec) : vec[i][k] = key /\ \A j \in 1..(i - 1) : vec[j][k] # key ELSE 0
 
-(* ResultNamespacesStack::getNamespaceForPrefix: nothing at all while no open element has a       *)
-(* declaration (m_stackPosition == m_stackBegin), otherwise xml / xmlns are answered first        *)
+(* XalanNamespacesStack::getNamespaceForPrefix: xml / xmlns are answered first, then the open     *)
+(* elements innermost first, the declarations of each newest first                                *)
 NsForPrefix(S, p) ==
   LET d == Decls(S)
-  IN IF d = <<>> THEN Null ELSE IF p = "xml" THEN XMLNS ELSE IF p = "xmlns" THEN XMLNSNS ELSE FindBack(d, Len(d), p, 1)
-(* ResultNamespacesStack::getPrefixForNamespace: the most recent declaration of that URI - it is   *)
-(* NOT checked whether the prefix found has been re-declared since (KD_shadowedPrefixReused)       *)
-PrefixForNs(S, u) == LET d == Decls(S) IN FindBack(d, Len(d), u, 2)
+  IN IF p = "xml" THEN XMLNS ELSE IF p = "xmlns" THEN XMLNSNS ELSE FindBack(d, Len(d), p, 1)
+(* XSLTEngineImpl::getResultPrefixForNamespace: the most recent declaration of that URI           *)
+(* (XalanNamespacesStack::getPrefixForNamespace) - but only if its prefix has not been re-declared *)
+(* for another namespace since                                                                     *)
+PrefixForNs(S, u) == LET d == Decls(S)
+                         f == FindBack(d, Len(d), u, 2)
+                     IN IF f # Null /\ NsForPrefix(S, f) # u THEN Null ELSE f
 PresentLocal(S, p) == S.stk # <<>> /\ \E i \in 1..Len(S.stk[Len(S.stk)]) : S.stk[Len(S.stk)][i][1] = p
 AddDecl(S, p, u) == [S EXCEPT !.stk[Len(S.stk)] = Append(@, <<p, u>>)]
 (* what a parser will make of prefix p on the pending start tag, as far as declared by now *)
@@ -193,8 +198,7 @@ ExecAttribute(ss, S, ins, nss0, parH) ==
              samePrefix == found = p \/ (p = "xml" /\ found = "xmlns")
          IN IF found # Null /\ found # "" /\ (p = "" \/ samePrefix)
             THEN (* re-use the prefix found for the namespace *)
-                 AddResultAttr(IF found = "xmlns" THEN Tag(S, "xmlnsPrefixOnElement")
-                               ELSE IF NsForPrefix(S, found) # ins.ns THEN Tag(S, "shadowedPrefixReused") ELSE S, found, l, ins.v, FALSE)
+                 AddResultAttr(S, found, l, ins.v, FALSE)
             ELSE LET isXmlns == p = "xmlns"
                      keep == /\ p # "" /\ ~isXmlns
                              /\ ~(LET t == NsForPrefix(S, p) IN t # Null /\ t # ins.ns /\ IsPendingResultPrefix(S, p))
@@ -401,7 +405,6 @@ Run(ss, src) ==
 NotWF == {"serialised-result-not-wellformed"}
 KDFaults(t) ==
   CASE t = "attrListKeyedByQName"         -> {"duplicate-expanded-attribute-name", "attribute-value", "attribute-name"} \cup NotWF
-    [] t = "shadowedPrefixReused"         -> {"attribute-name", "attribute-value", "duplicate-expanded-attribute-name"} \cup NotWF
     [] t = "attrDeclarationSkipped"       -> {"unbound-prefix", "attribute-name", "attribute-value", "duplicate-expanded-attribute-name"} \cup NotWF
     [] t = "copiedAttributeNotFixedUp"    -> {"unbound-prefix", "attribute-name", "attribute-value", "duplicate-expanded-attribute-name"} \cup NotWF
     [] t = "aliasAppliedToXslAttribute"   -> {"attribute-name", "attribute-value", "duplicate-expanded-attribute-name"} \cup NotWF
@@ -415,7 +418,7 @@ KDFaults(t) ==
     [] t = "strippedPrefixUndeclared"     -> {"prefix-undeclared", "default-namespace-leak", "element-name"} \cup NotWF
     [] t = "defaultDeclarationIsLiteralAttribute" -> {"excluded-namespace-declared", "alias-stylesheet-namespace-declared", "element-name"}
     [] OTHER -> {}
-KDTags == {"staleExcludedPrefix", "attrListKeyedByQName", "shadowedPrefixReused", "attrDeclarationSkipped", "copiedAttributeNotFixedUp", "aliasAppliedToXslAttribute",
+KDTags == {"staleExcludedPrefix", "attrListKeyedByQName", "attrDeclarationSkipped", "copiedAttributeNotFixedUp", "aliasAppliedToXslAttribute",
            "xmlPrefixWithOtherNamespace", "xmlnsPrefixOnElement", "emptyNamespaceAttributeIgnored", "strippedPrefixUndeclared",
            "defaultDeclarationIsLiteralAttribute", "literalAttributePrefixRebound"}
 Explained(tags) == UNION {KDFaults(t) : t \in tags}
